@@ -29,6 +29,29 @@ def _overlay(ctx):
         MPKG + "/zz_verif_c17_e2e_test.go": os.path.join(H, MPKG, "zz_verif_c17_e2e_test.go")})
 
 
+def _run_e2e(ctx, ov):
+    """Real Mirror wired to the real ChattyStrategy (TestVerifC17E2E)."""
+    e2e_out = ctx.path("e2e-%d.ndjson" % len(os.listdir(ctx.scratch)))
+    rc, o = ctx.go_test(MPKG, "^TestVerifC17E2E$", env={"VERIF_OUT": e2e_out}, overlay=ov, timeout=600)
+    e2e = [r for r in vlib.read_ndjson(e2e_out) if r.get("kind") == "e2e"]
+    if rc != 0 or not e2e:
+        raise vlib.Inconclusive("C17 end-to-end witness (real Mirror + real ChattyStrategy) did not run rc=%s\n%s" % (rc, o[-3000:]))
+    return e2e[0]
+
+
+def _e2e_violations(ctx, e2e):
+    for name, vote in (("first_vote", "a validator's first prevote"), ("equivocating_vote", "a second prevote of the same validator for another block (equivocation)"),
+                       ("third_vote", "another validator's prevote")):
+        if e2e[name + "_in_update"] and not e2e[name + "_offered"]:
+            ctx.violation("Complete", "Voting:same-hr", "vote:equivocation" if name == "equivocating_vote" else "pv",
+                          "end-to-end: the real Mirror accepted %s and handed the grown Voting view to the real ChattyStrategy, which never offered the signature to the broadcaster (quiescence by barrier update)" % vote,
+                          replay_obj={"e2e": e2e})
+    if e2e.get("nil_voted_round_in_update") and e2e.get("nil_precommits_offered", 0) < 3:
+        ctx.violation("Complete", "NilVotedRound", "pc",
+                      "end-to-end: the real Mirror nil-committed round (1,0) and handed NilVotedRound to the real ChattyStrategy, which offered only %d of its 3 nil precommits to the broadcaster" % e2e.get("nil_precommits_offered", 0),
+                      replay_obj={"e2e": e2e})
+
+
 def _write_behs(path, behs):
     with open(path, "w") as f:
         for b in behs:
@@ -73,9 +96,14 @@ def run(ctx):
     # ---------------------------------------------------------------- replay of a stored counterexample
     if ctx.replay:
         rp = json.load(open(ctx.replay))
+        ov = _overlay(ctx)
+        if "e2e" in rp["replay"]:
+            e2e = _run_e2e(ctx, ov)
+            ctx.log("end-to-end (real Mirror -> real ChattyStrategy): %s" % json.dumps(e2e))
+            _e2e_violations(ctx, e2e)
+            return ctx.finish("model_checking", extra_cov={"evaluations": 1, "distinct_nontrivial": 1, "rule": "end-to-end witness re-run", "exhaustive": False})
         beh = rp["replay"].get("behaviour", rp["replay"])
         beh["id"] = 0
-        ov = _overlay(ctx)
         binary = ctx.path("c17.test")
         ctx.go_test(PKG, "", overlay=ov, compile_only=True, binary=binary)
         recs, _, crashes = _run_harness(ctx, binary, [beh], "replay", 1)
@@ -93,25 +121,16 @@ def run(ctx):
     # Does the real Mirror accept an equivocating vote and hand it to the real ChattyStrategy?  If not,
     # the environment must not produce equivocation (Byz = {}).
     ov = _overlay(ctx)
-    e2e_out = ctx.path("e2e.ndjson")
-    rc, o = ctx.go_test(MPKG, "^TestVerifC17E2E$", env={"VERIF_OUT": e2e_out}, overlay=ov, timeout=600)
-    e2e = [r for r in vlib.read_ndjson(e2e_out) if r.get("kind") == "e2e"]
-    if rc != 0 or not e2e:
-        raise vlib.Inconclusive("C17 end-to-end witness (real Mirror + real ChattyStrategy) did not run rc=%s\n%s" % (rc, o[-3000:]))
-    e2e = e2e[0]
+    e2e = _run_e2e(ctx, ov)
     ctx.log("end-to-end (real Mirror -> real ChattyStrategy): %s" % json.dumps(e2e))
     if not (e2e["first_vote_in_update"] and e2e["third_vote_in_update"]):
         raise vlib.Inconclusive("end-to-end witness: the mirror did not forward plain votes: %s" % json.dumps(e2e))
+    if not (e2e.get("nil_voted_round_in_update") and e2e.get("nil_voted_round_update_has_voting_1_1_and_nextround_1_2")):
+        raise vlib.Inconclusive("end-to-end witness: the real mirror's nil-round update does not have the shape Chatty.tla's environment assumes: %s" % json.dumps(e2e))
     equiv = e2e["equivocating_vote_result"] == "Accepted" and e2e["equivocating_vote_in_update"]
     byz = {} if equiv else {"Byz": "{}"}
     if not equiv:
         ctx.log("the mirror does not hand equivocating votes to the strategy: environment restricted to Byz = {}")
-    for name, vote in (("first_vote", "a validator's first prevote"), ("equivocating_vote", "a second prevote of the same validator for another block (equivocation)"),
-                       ("third_vote", "another validator's prevote")):
-        if e2e[name + "_in_update"] and not e2e[name + "_offered"]:
-            ctx.violation("Complete", "Voting:same-hr", "vote:equivocation" if name == "equivocating_vote" else "pv",
-                          "end-to-end: the real Mirror accepted %s and handed the grown Voting view to the real ChattyStrategy, which never offered the signature to the broadcaster (quiescence by barrier update)" % vote,
-                          replay_obj={"e2e": e2e})
     ctx.sample({"end_to_end_real_mirror_and_strategy": e2e})
 
     # ---------------------------------------------------------------- 1+2. TLC: design check, behaviour export
@@ -124,7 +143,7 @@ def run(ctx):
         # quick: one block id + nil in the replayed exhaustive set (two ids: TLC run above, simulation, thorough tier)
         jobs["emit"] = pool.submit(ctx.tlc, "ChattyMC", "Chatty_emitq.cfg" if quick else "Chatty_emit.cfg", timeout=2400, workers=6,
                                    defines=dict(byz, MaxUpdates=3, MaxGap=2, MaxEvents=3) if quick
-                                   else dict(byz, MaxUpdates=4, MaxGap=2, MaxEvents=4))
+                                   else dict(byz, MaxUpdates=4, MaxGap=3, MaxEvents=3))   # = every behaviour with <=3 events
         jobs["sim"] = pool.submit(ctx.tlc, "ChattyMC", "Chatty_sim.cfg", timeout=900 if quick else 2400, workers=4,
                                   simulate="num=%d" % (80 if quick else 1200), depth=80, extra=["-seed", str(ctx.seed)], defines=byz or None)
         if not quick:
@@ -197,6 +216,7 @@ def run(ctx):
                    "never offered to the broadcaster:" if r["pred"] == "Complete" else "offered but not contained in any received view:",
                    ", ".join(r["items"][:8])))
         ctx.violation(r["pred"], r["site"], r["class"], what, replay_obj={"behaviour": r.get("behaviour")})
+    _e2e_violations(ctx, e2e)            # after the replayed ones, so that --replay files carry a behaviour
     if tot["flaky"]:
         raise vlib.Inconclusive("%d behaviours gave non-reproducible predicate failures (not reported)" % tot["flaky"])
     if tot["stalls"]:
@@ -263,6 +283,6 @@ def run(ctx):
         "evaluations": tot["steps"], "distinct_nontrivial": tot["distinct"],
         "rule": "one evaluation = Sound and Complete evaluated on the real broadcasts at the quiescent point after one real NetworkViewUpdate; distinct_nontrivial = distinct (update, real broadcast list) pairs counted in a set by the harness",
         "exhaustive": True,
-        "exhaustive_scope": "all engine-producible behaviours of the 3-validator/2-id/2-height/2-round universe with <= %d mirror events (TLC) and all with %s (replayed on the code)" % (ev, "3 deliveries, <=3 events" if quick else "4 deliveries, <=4 events"),
+        "exhaustive_scope": "all engine-producible behaviours of the 3-validator/2-id/2-height/2-round universe with <= %d mirror events (TLC) and all with %s (replayed on the code)" % (ev, "<=3 deliveries, <=3 events, <=2 events between deliveries, one block id + nil" if quick else "<=3 events, any number of deliveries, two block ids + nil"),
     }
     return ctx.finish("model_checking", extra_cov=cov)
